@@ -1,7 +1,7 @@
 import Iscp.Model.Conv
 import Iscp.Gen.Enums
 import Driver.Util
-/- topic `conv` (C11/C12): rc2w v · w2rc v · qos2w v · w2qos v · durs ns · durms ns · gate max n · msg … (oracle-only ops echo `-`) -/
+/- topic `conv` (C11/C12): rc2w v · w2rc v · qos2w v · w2qos v · durs ns · durms ns · elapsed ns · gate max n · msg … (oracle-only ops echo `-`) -/
 namespace Driver.Conv
 open Iscp.Conv Iscp.Gen.Enums Driver
 
@@ -17,6 +17,9 @@ def step (u : Unit) (line : String) : Unit × String :=
   | ["w2qos", v] => showOpt (lookup qosToLib (v.toInt?.getD 0))
   | ["durs", n] => toString (durFromWireS (durToWireS (n.toNat?.getD 0)))
   | ["durms", n] => toString (durFromWireMs (durToWireMs (n.toNat?.getD 0)))
+  | ["elapsed", n] => (match n.toInt? with
+      | some v => toString (elapsedFromWire (elapsedToWire v))
+      | none => "bad-op")
   | ["gate", m, n] => if sizeGate (m.toNat?.getD 0) (n.toNat?.getD 0) then "pass" else "too-large"
   | "msg" :: _ => "-"
   | "fuzz" :: _ => "-"
